@@ -21,7 +21,7 @@ var c06Commands = []struct {
 	src     string
 	replace bool
 }{
-	{"replace all 'ab' with 'X'", true},                         // shorter
+	{"replace all 'ab' with 'X'", true}, // shorter
 	// `set .. to matches <command>` is a DEFINITION: whatever command it names, no file is touched in any mode
 	{"set m to matches replace all 'ab' with 'X'", false},
 	{"set m to matches replace all 'a' with 'bb'\nset k to matches find all 'b'\nfind all 'ab'", false},
